@@ -41,7 +41,7 @@ func C02Meta() harness.Meta {
 			"instruction identity is the printed instruction (mnemonic and operands); the program counter is not compared directly",
 		},
 		FaultKinds:     []string{"tie_reorder", "config_swarm"},
-		ExpectedProbes: []string{"generated_alu_program", "barrier_program", "id_probe", "shipped_benchmark", "cdna3_on_mi300a", "divergent_region", "mini_platform", "shipped_platform", "register_scoreboard_on", "register_scoreboard_off", "subdword_load", "wide_load_store", "scalar_load_after_store", "reload_of_own_store", "generated_program_gfx9"},
+		ExpectedProbes: []string{"generated_alu_program", "barrier_program", "id_probe", "shipped_benchmark", "cdna3_on_mi300a", "divergent_region", "mini_platform", "shipped_platform", "register_scoreboard_on", "register_scoreboard_off", "subdword_load", "wide_load_store", "scalar_load_after_store", "reload_of_own_store", "generated_program_gfx9", "scalar_load_of_buffer_data"},
 		PerRunTimeoutS: 600,
 		ShrinkBudget:   24,
 	}
@@ -375,6 +375,9 @@ func C02(t *testing.T, ch *choice.Source, opt harness.Options, env *Env) harness
 		}
 		if strings.Contains(l, "flat_load_ubyte") || strings.Contains(l, "flat_load_sbyte") || strings.Contains(l, "flat_load_ushort") {
 			probes["subdword_load"] = 1
+		}
+		if strings.Contains(l, "s_load_dwordx4 s[28:31]") || strings.Contains(l, "s_load_dwordx2 s[28:29]") {
+			probes["scalar_load_of_buffer_data"] = 1
 		}
 		if strings.Contains(l, "s_load_dword s28") {
 			probes["scalar_load_after_store"] = 1
